@@ -9,7 +9,7 @@ zero/FRN/annuity formulas of the generated text), C07e (strictly decreasing + st
 coded, unique yield / round trip of the generated function), C07f (HasDerivAt of the price to every order, central-difference
 error bounds dy^2/6 sup|P3| and dy^2/12 sup|P4| for the coded dollar duration / convexity), C07g (ICMA accrued from the
 C15 day-count theorems, zero-coupon monotonicity, FRN loop = PV / par at DM = quoted margin / unique DM, curve rescaling).
-Tie: the model at Float (Driver/C07) AND the generated formulas at Float (Gen/BondF, ops G...) against the implementation
+Tie: the model at Float (Driver/C07) AND the generated formulas at Float (Gen/BondF, Driver/C07Gen, ops G...) against the implementation
 on every case; the source-independent spec
 (Driver/C07Spec: explicit cash-flow sums) against the implementation; direct oracles on the implementation."""
 import contextlib
@@ -28,7 +28,7 @@ from parallel import driver_parallel  # noqa: E402
 GEN = ['BondF', 'BondR']
 PROPS = ['FinVerif.Props.C07a', 'FinVerif.Props.C07b', 'FinVerif.Props.C07c', 'FinVerif.Props.C07d', 'FinVerif.Props.C07e',
          'FinVerif.Props.C07f', 'FinVerif.Props.C07g']
-DRIVERS = ['FinVerif.Driver.C07']
+DRIVERS = ['FinVerif.Driver.C07', 'FinVerif.Driver.C07Gen']
 SPEC_DRIVERS = ['FinVerif.Driver.C07Spec']
 
 RULE = ('bond cases = (bond, settlement date, yield, convention): bonds drawn over issue/maturity dates biased to '
@@ -42,7 +42,7 @@ RULE = ('bond cases = (bond, settlement date, yield, convention): bonds drawn ov
         'and negative-yield cases is reported per branch. Curve / zero / annuity / FRN components likewise.')
 
 SHIFT = 0.000000000012345
-PRINCIPAL_FACE = 1000000.0     # face used for the tie of `Bond.principal` (hard-wired in Driver/C07 GBOND too)
+PRINCIPAL_FACE = 1000000.0     # face used for the tie of `Bond.principal` (hard-wired in Driver/C07Gen GBOND too)
 CONV_CODES = {'UK_DMO': 1, 'US_STREET': 2, 'US_TREASURY': 3, 'CFETS': 4}
 
 F_TREAS = 'C07/us-treasury-last-period-compounding'
@@ -206,7 +206,7 @@ def gen_settles(rng, F, bond, p, nper):
 def gen_yield(rng):
     k = rng.random()
     if k < 0.12:
-        return rng.choice([0.0, 1e-6, -1e-6, -0.02, 0.5, 0.05, 1e-4, -1e-4])
+        return rng.choice([0.0, 1e-6, -1e-6, -0.02, 0.5, 0.05, 1e-4, -1e-4, 1e-12, -1e-12, 1e-9, -1e-9, 5e-7, -5e-7])
     if k < 0.3:
         return rng.uniform(-0.02, 0.0)
     if k < 0.85:
@@ -401,20 +401,28 @@ def judge_bond_case(ctx, k, r, model, spec_dp, spec_acc, stats):
         viol('ex-dividend date is not ncd - ex_div_days business days', {'impl': r['exdt'], 'expected': k['exdt']},
              'ex-div-date')
     # --- spec: accrued
-    acc_spec = b2f(spec_acc)
+    # (the spec driver is independent of the generated modules; should it be unavailable, the same formula in Python)
+    acc_spec = b2f(spec_acc) if spec_acc is not None else ((k['accf'] - 1.0 / f) if k['exdiv'] else k['accf']) * c * 100.0
     if not relclose(r['acc'], acc_spec, 1e-10):
         viol('accrued interest differs from year-fraction x coupon (less one coupon when ex-dividend)',
              {'impl': r['acc'], 'spec': acc_spec}, 'accrued')
     if not relclose(r['alpha'], k['alpha'], 1e-10, 1e-13):
         viol('alpha is not 1 - acc_factor*freq', {'impl': r['alpha'], 'expected': k['alpha']}, 'alpha')
     # --- spec: dirty price = explicit cash-flow sum
-    dps = b2f(spec_dp)
     rs = rtol_spec(v, n, f)
     pysum = python_cashflow_sum(k)
+    dps = b2f(spec_dp) if spec_dp is not None else pysum
     if not relclose(dps, pysum, 1e-9 + rs):
         ctx.broke(f'spec driver disagrees with the Python cash-flow sum on {case}: {dps} vs {pysum}')
-    m = model.split()
-    model_dp = b2f(m[4]) if not m[4].startswith('E:') else None
+    # model unavailable (its driver does not build): the direct oracles still run; the one model value the known-finding
+    # classifier needs (US_TREASURY last period as coded: compound over the fraction) is then evaluated here
+    m = model.split() if model is not None else None
+    if m is not None:
+        model_dp = b2f(m[4]) if not m[4].startswith('E:') else None
+    elif n == 0 and k['conv'] == 'US_TREASURY' and v > 0:
+        model_dp = (v ** k['alpha']) * (1.0 + (0.0 if k['exdiv'] else 1.0) * c / f) * 100.0
+    else:
+        model_dp = None
     if not relclose(r['dp'], dps, rs):
         finding = None
         if n == 0 and k['conv'] == 'US_TREASURY':
@@ -512,6 +520,9 @@ def judge_bond_case(ctx, k, r, model, spec_dp, spec_acc, stats):
     elif 'flat_curve_error' in r:
         viol('price from flat-yield curve raised', {'error': r['flat_curve_error']}, 'flat-curve')
     # --- tie: model vs implementation
+    if m is None:
+        stats['model_unavailable'] = stats.get('model_unavailable', 0) + 1
+        return
     bad = []
     exp_idx = str(k['idx'])
     if m[0] != exp_idx or int(m[1]) != n:
@@ -601,6 +612,8 @@ def judge_curve(ctx, k, model, spec, stats):
         ok = False
         ctx.violation('curve dirty - clean != accrued', dict(case, dirty=k['impl'], clean=k['impl_clean'], acc=k['acc']),
                       clause='curve-dirty-clean')
+    if model is None:
+        return
     if model.startswith('E:') or not relclose(k['impl'], b2f(model), 1e-10):
         stats['curve_model_disagree'] = stats.get('curve_model_disagree', 0) + 1
         if ok and stats['curve_model_disagree'] <= 3:
@@ -701,7 +714,7 @@ def zero_cases(ctx, rng, F, nz, drivers_ok):
 
 
 def model_compare(ctx, comp, ops, impl, cases, drivers_ok, rtol):
-    if not drivers_ok or not ops:
+    if not AVAIL.get('C07') or not ops:
         return
     try:
         ans = driver_parallel('C07', ops)
@@ -719,10 +732,10 @@ def model_compare(ctx, comp, ops, impl, cases, drivers_ok, rtol):
 
 def gen_compare(ctx, comp, ops, impls, cases, drivers_ok, rtol, atol=1e-11):
     """tie of the generated formulas (Gen/BondF, ops `G...`): every answer token against the implementation's value"""
-    if not drivers_ok or not ops:
+    if not AVAIL.get('C07Gen') or not ops:
         return
     try:
-        ans = driver_parallel('C07', ops)
+        ans = driver_parallel('C07Gen', ops)
     except C.DriverError as e:
         ctx.broke(f'model driver failed on component {comp} (generated ops): {str(e)[:300]}')
         return
@@ -900,10 +913,87 @@ WITNESSES = [
 ]
 
 
+AVAIL = {}
+
+
+def driver_availability(ctx, drivers_ok):
+    """Which of the two model drivers were built THIS run (lean_stage builds each target separately when the joint build
+    fails and names the failed ones in one broken-obligation line).  A driver that did not build is not run at all - a stale
+    olean of an earlier run must not be taken for the model of the present source."""
+    failed = set()
+    for b in ctx.broken:
+        if b.startswith('model: the executable model (driver) no longer builds:'):
+            failed |= {x.strip() for x in b.split(':', 2)[2].split(',')}
+    AVAIL.clear()
+    for d in ('C07', 'C07Gen', 'C07Spec'):
+        AVAIL[d] = bool(drivers_ok) or ('FinVerif.Driver.' + d) not in failed
+    return AVAIL
+
+
+# yields at and around zero, every convention on the same bond and date (closely spaced pairs for strict monotonicity; +-1e-4
+# = +-dy of the bump formulas, so that a bumped yield is exactly 0)
+LADDER = [-1e-4, -1e-6, -5e-7, -5e-8, -1e-9, -1e-12, 0.0, 1e-12, 1e-9, 5e-8, 5e-7, 1e-6, 1e-4]
+LADDER_PAIRS = [(-1e-6, -5e-7), (-5e-7, -5e-8), (-5e-8, 5e-8), (5e-8, 5e-7), (5e-7, 1e-6),
+                (-1e-9, 0.0), (0.0, 1e-9), (-1e-12, 0.0), (0.0, 1e-12), (-1e-9, 1e-9)]
+
+
+def price_noise(y, f):
+    """relative noise of one evaluation of the closed form (as in the risk oracle): one ulp of `pow` amplified by 1/|1-v|"""
+    v = 1.0 / (1.0 + (y + SHIFT) / f)
+    return 1e-17 / max(abs(1.0 - v), 1e-300) + 4e-16
+
+
+def judge_ladder(ctx, group, stats):
+    """Strict monotonicity on closely spaced yields around zero.  `group` = [(k, r)] of one (bond, settlement, convention) over
+    LADDER.  The slope is taken from the far points +-1e-4; a pair whose expected price difference is resolvable (10 x the noise of
+    the two evaluations) must show at least half and at most twice that difference - a price that is flat, or jumps, inside
+    (-1e-6, 1e-6) fails; an unresolvable pair must at least not increase beyond the noise."""
+    P = {}
+    for k, r in group:
+        if 'error' in r or 'dp' not in r:
+            return
+        P[k['ytm']] = r['dp']
+    k0 = group[0][0]
+    if len(P) != len(LADDER) or not (k0['alpha'] >= 0 and (k0['alpha'] > 1e-9 or k0['n'] > 0)):
+        stats['ladder_skipped'] = stats.get('ladder_skipped', 0) + 1
+        return
+    f = k0['f']
+    slope = (P[-1e-4] - P[1e-4]) / 2e-4
+    stats['ladder_groups'] = stats.get('ladder_groups', 0) + 1
+    # price at (essentially) zero yield = the plain sum of the remaining flows, up to the code's own +1.2345e-11 yield offset:
+    # |P - sum| <= offset x |dP/dy| (slope from the far points; 1 % for its truncation) + 1e-13 relative.  No closed-form
+    # cancellation term here: for |y| <= 1e-12 the shifted v is 1 - k 2^-53 with k < 2^17 and v**(n-1) is exactly representable, so the
+    # series is evaluated to a few ulp (measured excess over offset x slope: <= 7e-16 relative over 2400 bond/convention pairs).
+    for k, r in group:
+        y = k['ytm']
+        if abs(y) <= 1e-12:
+            flows = python_cashflow_sum(k)
+            tol = 1.01 * SHIFT * abs(slope) + 1e-13 * abs(flows)
+            stats['zero_yield_sum'] = stats.get('zero_yield_sum', 0) + 1
+            if not abs(r['dp'] - flows) <= tol:
+                ctx.violation('dirty price at zero yield is not the sum of the remaining coupons and principal (beyond the 1.2345e-11 '
+                              'yield offset x dP/dy)', dict(brief(k), impl=r['dp'], sum_of_flows=flows, difference=r['dp'] - flows,
+                                                           allowed=tol, slope=slope), clause='cashflow-sum-at-zero-yield')
+    for a, b in LADDER_PAIRS:
+        d = P[a] - P[b]
+        expect = slope * (b - a)
+        noise = abs(P[0.0]) * (price_noise(a, f) + price_noise(b, f))
+        case = dict(brief(k0), ytm=a, y1=a, y2=b, P1=P[a], P2=P[b], slope=slope)
+        if expect > 10.0 * noise:
+            stats['ladder_pairs_resolved'] = stats.get('ladder_pairs_resolved', 0) + 1
+            if not (0.5 * expect <= d <= 2.0 * expect):
+                ctx.violation('price not strictly decreasing in yield on closely spaced yields around zero: P(y1) - P(y2) is not '
+                              'slope x (y2 - y1)', dict(case, difference=d, expected=expect), clause='monotone-near-zero')
+        elif d < -noise:
+            ctx.violation('price increases with yield around zero beyond the evaluation noise', dict(case, difference=d, noise=noise),
+                          clause='monotone-near-zero')
+
+
 def run(ctx):
     drivers_ok = C.lean_stage(ctx, GEN, PROPS, DRIVERS + SPEC_DRIVERS,
                               extra_files=['FinVerif/Lemmas/C07Real.lean', 'FinVerif/Lemmas/C07Calc.lean', 'FinVerif/Lemmas/C07FD.lean',
                                            'FinVerif/Model/C07Bond.lean', 'FinVerif/Spec/C07.lean'])
+    driver_availability(ctx, drivers_ok)
     C.import_financepy()
     F = fp()
     F['Date'](1, 1, 2120)  # extend the date table once (table-extension history is C13/C18's subject)
@@ -918,10 +1008,10 @@ def run(ctx):
     seen = set()
     convs = list(CONV_CODES)
     curve_cases = []
-    def add_case(bi, bond, p, settle, conv, y, do_ytm, do_risk):
-        key = (bi, ser(settle), conv)
+    def add_case(bi, bond, p, settle, conv, y, do_ytm, do_risk, ladder=False):
+        key = (bi, ser(settle), conv, y) if ladder else (bi, ser(settle), conv)
         if key in seen:
-            return
+            return None
         seen.add(key)
         k = derive_case(F, bond, p, settle, conv, y)
         r = impl_eval(F, bond, k, do_ytm, do_risk)
@@ -933,6 +1023,9 @@ def run(ctx):
                           ('negative-alpha', k['alpha'] < 0), (conv, True), (p['dc'], True), (p['freq'], True)):
             if cond:
                 branch[tag] = branch.get(tag, 0) + 1
+        if ladder:
+            branch['near-zero-ladder'] = branch.get('near-zero-ladder', 0) + 1
+        return k, r
 
     # witnesses of the known findings are replayed on the implementation on every run
     wrng = ctx.rng('witness')
@@ -942,6 +1035,30 @@ def run(ctx):
         add_case(-1 - wi, bond, p, settle, conv, y, True, True)
         if p['exdiv'] > 0 and conv == 'UK_DMO':
             curve_cases.append(curve_case(wrng, F, bond, p, settle))
+
+    # yields at and around zero: every convention x LADDER on the same bond and settlement date, yield round trip and risk
+    # measures at each of them (own random stream: the cases of the main stream are unchanged)
+    zrng = ctx.rng('nearzero')
+    ladder_groups = []
+    for zi, p in enumerate(gen_bond_params(zrng, 24 if quick else 200)):
+        try:
+            bond = make_bond(F, p)
+        except Exception:  # noqa: BLE001  (constructor failures are reported by the main stream)
+            continue
+        if len(bond.cpn_dts) < 2:
+            continue
+        settles = gen_settles(zrng, F, bond, p, 9)
+        settle = zrng.choice(settles)
+        for conv in convs:
+            grp = []
+            for y in LADDER:
+                kr = add_case(-1000 - zi, bond, p, settle, conv, y, True, True, ladder=True)
+                if kr is not None:
+                    grp.append(kr)
+            ladder_groups.append(grp)
+    for grp in ladder_groups:
+        if grp:
+            judge_ladder(ctx, grp, stats)
 
     # bonds are processed in chunks so that the op strings of the thorough tier stay small
     CH = 400
@@ -969,26 +1086,38 @@ def run(ctx):
                 if rng.random() < 0.5:
                     curve_cases.append(curve_case(rng, F, bond, p, settle))
         # ---- drivers
-        m_ops, s_ops = [], []
+        m_ops, s_ops, g_ops = [], [], []
         for k, r in zip(cases, impls):
             ob, orisk, odp, oacc = case_ops(k)
-            m_ops += [ob, orisk, gen_op(k, 'dd' in r)]
+            m_ops += [ob, orisk]
+            g_ops.append(gen_op(k, 'dd' in r))
             s_ops += [odp, oacc]
         model = spec = None
-        try:
-            spec = driver_parallel('C07Spec', s_ops, chunk=4000)
-        except C.DriverError as e:
-            ctx.broke(f'spec driver failed: {str(e)[:300]}')
-        if drivers_ok:
+        if AVAIL['C07Spec']:
+            try:
+                spec = driver_parallel('C07Spec', s_ops, chunk=4000)
+            except C.DriverError as e:
+                ctx.broke(f'spec driver failed: {str(e)[:300]}')
+        gmodel = None
+        if AVAIL['C07']:
             try:
                 model = driver_parallel('C07', m_ops, chunk=4000)
             except C.DriverError as e:
                 ctx.broke(f'model driver failed: {str(e)[:300]}')
-        if spec is not None and model is not None:
-            for i, (k, r) in enumerate(zip(cases, impls)):
-                judge_bond_case(ctx, k, r, model[3 * i], spec[2 * i], spec[2 * i + 1], stats)
-                judge_risk_model(ctx, k, r, model[3 * i + 1], stats)
-                judge_gen_case(ctx, k, r, model[3 * i + 2], stats)
+        if AVAIL['C07Gen']:
+            try:
+                gmodel = driver_parallel('C07Gen', g_ops, chunk=4000)
+            except C.DriverError as e:
+                ctx.broke(f'driver of the generated formulas failed: {str(e)[:300]}')
+        # the direct oracles (spec sum, dirty-clean-accrued, monotone/convex, yield round trip, risk = derivatives, flat curve) run
+        # on every case whether or not the model drivers are available
+        for i, (k, r) in enumerate(zip(cases, impls)):
+            judge_bond_case(ctx, k, r, model[2 * i] if model is not None else None,
+                            spec[2 * i] if spec is not None else None, spec[2 * i + 1] if spec is not None else None, stats)
+            if model is not None:
+                judge_risk_model(ctx, k, r, model[2 * i + 1], stats)
+            if gmodel is not None:
+                judge_gen_case(ctx, k, r, gmodel[i], stats)
         # ---- curve
         cm, cs_ = [], []
         for k in curve_cases:
@@ -996,11 +1125,11 @@ def run(ctx):
             cm.append(a)
             cs_.append(b)
         try:
-            cspec = driver_parallel('C07Spec', cs_, chunk=4000) if cs_ else []
-            cmodel = driver_parallel('C07', cm, chunk=4000) if (cm and drivers_ok) else None
-            if cmodel is not None:
-                for k, a, b in zip(curve_cases, cmodel, cspec):
-                    judge_curve(ctx, k, a, b, cstats)
+            cspec = driver_parallel('C07Spec', cs_, chunk=4000) if (cs_ and AVAIL['C07Spec']) else None
+            cmodel = driver_parallel('C07', cm, chunk=4000) if (cm and AVAIL['C07']) else None
+            if cspec is not None:
+                for i, k in enumerate(curve_cases):
+                    judge_curve(ctx, k, cmodel[i] if cmodel is not None else None, cspec[i], cstats)
         except C.DriverError as e:
             ctx.broke(f'driver failed on curve component: {str(e)[:300]}')
         tot_cases += len(cases)
@@ -1057,7 +1186,17 @@ def replay(ctx, path):
     F['Date'](1, 1, 2120)
     case = v['case']
     print('replay case:', json.dumps(case, default=str)[:600])
-    if 'bond' in case and 'conv' in case:
+    if 'bond' in case and 'conv' in case and v.get('clause') in ('monotone-near-zero', 'cashflow-sum-at-zero-yield'):
+        p = case['bond']
+        settle = F['Date'](*case['settle'])
+        grp = []
+        for y in LADDER:
+            bond = make_bond(F, p)
+            k = derive_case(F, bond, p, settle, case['conv'], y)
+            grp.append((k, impl_eval(F, bond, k, False, False)))
+        print('prices on the ladder:', [(k['ytm'], r.get('dp')) for k, r in grp])
+        judge_ladder(ctx, grp, {})
+    elif 'bond' in case and 'conv' in case:
         p = case['bond']
         bond = make_bond(F, p)
         k = derive_case(F, bond, p, F['Date'](*case['settle']), case['conv'], case['ytm'])
